@@ -117,7 +117,13 @@ func resScenario(p resParams) func() {
 					inv.Quorum = p.ending == "early-quorum"
 				}
 			}
-			if p.ending == "pre-cancelled" {
+			if p.ending == "pre-cancelled-node-down" {
+				// node 2 is down and known to be (sender and receiver have noticed) when a call whose
+				// context has already ended is issued
+				w.FW.Crash(world.Addr(2))
+				mc.Quiesce()
+			}
+			if p.ending == "pre-cancelled" || p.ending == "pre-cancelled-node-down" {
 				// the context has ended before the call: the request may still be handed to the sender
 				// (select picks at random), which then refuses it
 				c.Cancel(context.Canceled)
@@ -203,6 +209,8 @@ func resScenario(p resParams) func() {
 				if done, _ := callDone(second); !done {
 					fail("C18/call-not-done", key, "%s: round %d: the second call has not completed", name, round)
 				}
+			}
+			if second != nil || p.ending == "pre-cancelled-node-down" {
 				// the node listens again before the next round
 				w.FW.Restart(world.Addr(2))
 				mc.Quiesce()
@@ -229,7 +237,7 @@ func resInstances(tier string) []Instance {
 	if thorough(tier) {
 		kinds = append(kinds, k{"QuorumCallCombo", false}, k{"QuorumCallAsyncPerNodeArg", false}, k{"CorrectableStreamCombo", false}, k{"MulticastPerNodeArg", false})
 	}
-	endings := []string{"early-quorum", "exhaustion", "cancel-then-answer", "cancel-while-answering", "deadline-silent", "crash", "handler-error", "stream-end", "send-fails", "pre-cancelled", "cancel-while-queued", "crash-while-issuing"}
+	endings := []string{"early-quorum", "exhaustion", "cancel-then-answer", "cancel-while-answering", "deadline-silent", "crash", "handler-error", "stream-end", "send-fails", "pre-cancelled", "cancel-while-queued", "crash-while-issuing", "pre-cancelled-node-down"}
 	for _, kd := range kinds {
 		for _, e := range endings {
 			if e == "stream-end" && !world.IsStream(kd.kind) {
@@ -262,7 +270,7 @@ func resInstances(tier string) []Instance {
 
 func init() {
 	register(&Check{ID: "C18",
-		Rule:        "9 call variants (13 thorough) x way of ending {quorum before all replies then the straggler answers, exhaustion, cancel then the nodes answer, cancel (an adversary thread) while the nodes answer, deadline with a node that stays silent, node crash + restart, handler error, stream end, the write itself failing (stream dies while the request is blocked in SendMsg on a full window), context already ended before the call, context ending while the request waits in the send buffer behind a blocked sender, node going down for good while the call waits for it and a second call is being issued} x send buffer {0,1}, each call repeated twice on the same manager; after each round (back-off timers fired) the oracle reads the size of every per-message table of every node's channel (response routers and any other map, by reflection) through an accessor and the live per-call goroutines from the scheduler: zero once every targeted node has answered or its connection failed (one router per round only for a node that never answers), no growth between rounds; all schedules within the deviation bound; an outcome is the instance",
+		Rule:        "9 call variants (13 thorough) x way of ending {quorum before all replies then the straggler answers, exhaustion, cancel then the nodes answer, cancel (an adversary thread) while the nodes answer, deadline with a node that stays silent, node crash + restart, handler error, stream end, the write itself failing (stream dies while the request is blocked in SendMsg on a full window), context already ended before the call (node up, or down and known to be), context ending while the request waits in the send buffer behind a blocked sender, node going down for good while the call waits for it and a second call is being issued} x send buffer {0,1}, each call repeated twice on the same manager; after each round (back-off timers fired) the oracle reads the size of every per-message table of every node's channel (response routers and any other map, by reflection) through an accessor and the live per-call goroutines from the scheduler: zero once every targeted node has answered or its connection failed (one router per round only for a node that never answers), no growth between rounds; all schedules within the deviation bound; an outcome is the instance",
 		Gen:         resInstances,
 		Assumptions: []string{"router counts are read through an accessor added by overlay; goroutines are identified by their spawn site"},
 	})
